@@ -124,6 +124,8 @@ def value_grid(rnd=None, extra=0):
     add(decimal.Decimal("100"), "Decimal")
     add(fractions.Fraction(1, 3), "Fraction")
     add(fractions.Fraction(300, 1), "Fraction")
+    add(3e303, "float-huge")  # finite, but any scaling of it overflows
+    add(-3e303, "float-huge")
     add(10 ** 400, "int-beyond-float")  # an int no float can hold: refused like any other unrepresentable number
     add(-(10 ** 400), "int-beyond-float")
     for v in (0, 1, 100, 256, 300, 1000, 400000, 2 ** 31):
